@@ -91,6 +91,9 @@ func main() {
 		workerMain(*worker, flag.Args())
 		return
 	}
+	if *prop == "canaries" {
+		os.Exit(runCanaries())
+	}
 	def, ok := props[*prop]
 	if !ok {
 		fmt.Println("unknown property", *prop)
